@@ -129,3 +129,34 @@ add("C15", "model_checking",
     "propagator is treated as a documented setting of that object; memoised integrals are not "
     "inputs; exceptions are outside this property's quantifier.",
     "DESIGN.md §3 C15")
+add("C03", "model_checking",
+    "exhaustive enumeration of aggregate configurations (sizes, multiplicities, energy and "
+    "coupling patterns, all N! relabellings, unit contexts, lattice geometries) against a "
+    "combinatorial Frenkel reference model",
+    "Full product N(1..4 quick / 1..6 thorough) x mult{1,2} x energy pattern x coupling pattern x "
+    "dipole set x coupling API x input unit x build context, every one of the N! relabellings "
+    "built inside each point; element-wise comparison of Hamiltonian, dipole operator and the raw "
+    "HH/DD arrays with mc/refmodels/frenkel.py (band order, diagonal sums, one-excitation moves "
+    "incl. the two-exciton block, zero elements inside and between bands, dipole adjacency), "
+    "bookkeeping (Nb, elsigs, which_band), relabelling invariance of spectrum and cluster-summed "
+    "dipole strengths, unit independence; point-dipole couplings for all ordered lattice point "
+    "pairs x all dipole pairs x eps_r x three APIs against the SI formula (1e-6).",
+    "Two-level molecules with zero ground-state energy, no vibrational modes; sizes above the "
+    "bound and parameter values between alphabet points not explored.",
+    "DESIGN.md §3 C03")
+add("C14", "model_checking",
+    "exhaustive enumeration of system x condition x temperature x request-context grid against "
+    "log-space Boltzmann populations",
+    "Full product system (8 aggregates + 5 molecules quick; 20 + 8 thorough, with/without modes, "
+    "mult 1/2) x ground energy x bath x condition (thermal, thermal excited state weak/strong, "
+    "impulsive) x relaxation Hamiltonian given or not x temperature source x 15 (quick) / 29 "
+    "(thorough) temperatures from 0 K to 1e5 K, each requested outside any context, inside "
+    "eigenbasis_of(H) and inside eigenbasis_of(another operator) and read back at depth 0. "
+    "Oracles: finite, Hermitian, PSD, unit trace, diagonal in the defining basis, populations vs "
+    "log-space Boltzmann with a computed conditioning bound, zero-temperature limit, same "
+    "physical operator inside and outside.",
+    "Plain 'thermal' is accepted under either of its two readings and not required to be context "
+    "independent; degenerate lowest level at T=0 only support-checked; unsupported requests "
+    "(strong coupling without bath/with modes and no relaxation Hamiltonian) are counted as "
+    "refused.",
+    "DESIGN.md §3 C14")
